@@ -241,7 +241,8 @@ class Unit:
         if mode == 'external_body':
             pre_attr = '#[verifier::external_body]\n'
         if kv.get('attr'):
-            pre_attr += '#[%s]\n' % kv['attr'].replace('~', ' ')
+            for a_ in kv['attr'].split(';'):
+                pre_attr += '#[%s]\n' % a_.replace('~', ' ')
         if mode == 'external_body':
             loop_specs, inserts, desugars, endloops, innerspecs, atend = {}, [], {}, {}, {}, []      # body is dropped (R8)
         # loops
